@@ -5,6 +5,8 @@
  *                              n<k>   k newline characters            c<k>  k comment lines "//\n"
  *                              h<hex> raw bytes                       s<k>  k filler statements "  x_ = x_ + 1;\n"
  *   dump <oid>               dump the line tables of the object's program and of every inherited program
+ *   tick <dt>                current_time += dt; the driver's call_heart_beat() (heart beats, then call_outs)
+ *   reset <oid>              the driver's reset_object()
  *   unload <oid>             destruct the object (so that the next `load` compiles or loads the saved binary)
  *
  * canonical output produced here:
@@ -27,6 +29,19 @@
 #include "lpc/compiler.h"
 #include "lpc/lex.h"
 #include "lpc/program/binaries.h"
+#include "lib/efuns/call_out.h"
+
+/* libc interposition: the driver's clock is virtual (call_heart_beat() reads time() into current_time; with the wall
+ * clock the call_out wheel would be swept second by second from VH_T0 to today) */
+static time_t c18_now = VH_T0;
+time_t time (time_t * t)
+{
+  if (t)
+    *t = c18_now;
+  return c18_now;
+}
+
+void verif_tick (void);		/* src/backend.c (NEOLITH_VERIF): the driver's call_heart_beat(), which also runs the call_outs */
 
 extern void (*verif_line_hook) (int kind, long a, long b, long c, const char *s);
 extern void (*verif_error_hook) (const char *err, int catch_flag);
@@ -403,6 +418,51 @@ static int c18_cmd (char *line)
         vh_out ("dump %s !noobj", line + 5);
       else
         dump_prog_rec (ob->prog, 1, 0);
+      return 1;
+    }
+  if (!strncmp (line, "tick ", 5))
+    {
+      /* advance the clock and let the driver run heart beats and call_outs (frames created by the driver itself) */
+      error_context_t econ;
+      c18_now += atol (line + 5);
+      current_time = c18_now;
+      save_context (&econ);
+      if (!setjmp (econ.context))
+        {
+          eval_cost = CONFIG_INT (__MAX_EVAL_COST__);
+          verif_tick ();
+          pop_context (&econ);
+        }
+      else
+        {
+          restore_context (&econ);
+          pop_context (&econ);
+          vh_out ("r tick !err");
+        }
+      return 1;
+    }
+  if (!strncmp (line, "reset ", 6))
+    {
+      error_context_t econ;
+      object_t *ob = vh_obj (line + 6);
+      if (!ob || (ob->flags & O_DESTRUCTED))
+        {
+          vh_out ("r reset %s !noobj", line + 6);
+          return 1;
+        }
+      save_context (&econ);
+      if (!setjmp (econ.context))
+        {
+          eval_cost = CONFIG_INT (__MAX_EVAL_COST__);
+          reset_object (ob);
+          pop_context (&econ);
+        }
+      else
+        {
+          restore_context (&econ);
+          pop_context (&econ);
+          vh_out ("r reset %s !err", line + 6);
+        }
       return 1;
     }
   if (!strncmp (line, "unload ", 7))
